@@ -198,3 +198,45 @@ V("c17-benign-eof", "C17", "benign", "", "completion established through eof",
 V("c17-benign-rename", "C17", "benign", "", "locals renamed, second pull bound to a name",
   "rfc7518/jwe_zips.py", "        value = decompressor.decompress(s, MAX_SIZE)\n        # all the input may have been consumed while output is still pending,\n        # try to pull one more byte to find out if the limit is exceeded\n        if decompressor.unconsumed_tail or decompressor.decompress(b\"\", 1):",
   "        out = decompressor.decompress(s, MAX_SIZE)\n        more = decompressor.decompress(decompressor.unconsumed_tail, 1)\n        value = out\n        if more:")
+
+# ------------------------------------------------------------------------------------------------ C15
+V("c15-drop-check-header-validate", "C15", "break", "R15.1", "check_header removed from validate_compact",
+  "jws.py", "    headers = obj.headers()\n    registry.check_header(headers)\n    key: Key = guess_key(public_key, obj)", "    headers = obj.headers()\n    key: Key = guess_key(public_key, obj)")
+V("c15-drop-check-header-sign-member", "C15", "break", "R15.1", "check_header removed from JSON signing",
+  "rfc7515/json.py", "    headers = member.headers()\n    registry.check_header(headers)\n    alg = registry.get_alg(headers[\"alg\"])\n    key = find_key(member)\n    key.check_use(\"sig\")\n    alg.check_key_type(key)\n    if member.protected:",
+  "    headers = member.headers()\n    alg = registry.get_alg(headers[\"alg\"])\n    key = find_key(member)\n    key.check_use(\"sig\")\n    alg.check_key_type(key)\n    if member.protected:")
+V("c15-drop-check-more", "C15", "break", "R15.1", "check_more dropped on JWE consumption",
+  "rfc7516/message.py", "        registry.check_header(headers, True)", "        registry.check_header(headers)")
+V("c15-check-protected-only", "C15", "break", "R15.1", "JSON verify validates only the protected header",
+  "rfc7515/json.py", "    headers = member.headers()\n    registry.check_header(headers)\n    alg = registry.get_alg(headers[\"alg\"])\n    key = find_key(member)\n    key.check_use(\"sig\")\n    alg.check_key_type(key)\n    if \"protected\" in signature:",
+  "    headers = member.headers()\n    registry.check_header(member.protected or {})\n    alg = registry.get_alg(headers[\"alg\"])\n    key = find_key(member)\n    key.check_use(\"sig\")\n    alg.check_key_type(key)\n    if \"protected\" in signature:")
+V("c15-jwe-no-crit", "C15", "break", "R15.2", "JWE check_header skips the crit check",
+  "rfc7516/registry.py", "        check_crit_header(header)\n        validate_registry_header(self.header_registry, header)\n\n        alg =", "        validate_registry_header(self.header_registry, header)\n\n        alg =")
+V("c15-jwe-strict-only-without-more", "C15", "break", "R15.2", "JWE strict check skipped when the alg has its own parameters",
+  "rfc7516/registry.py", "            if self.strict_check_header:\n                allowed_registry = self.header_registry.copy()\n                allowed_registry.update(alg.more_header_registry)\n                check_supported_header(allowed_registry, header)\n", "            pass\n")
+V("c15-7797-b64-without-crit", "C15", "break", "R15.2", "b64 accepted without crit",
+  "rfc7797/registry.py", "        if \"b64\" in header:\n            _safe_b64_header(header)\n", "")
+V("c15-kid-any-type", "C15", "break", "R15.3", "kid no longer type checked",
+  "registry.py", '    "kid": HeaderParameter("Key ID", is_str),', '    "kid": HeaderParameter("Key ID", is_jwk),')
+V("c15-enc-optional", "C15", "break", "R15.3", "enc no longer required",
+  "registry.py", '    "enc": HeaderParameter("Encryption Algorithm", is_str, True),', '    "enc": HeaderParameter("Encryption Algorithm", is_str),')
+V("c15-p2c-str", "C15", "break", "R15.3", "p2c registered as str",
+  "rfc7518/jwe_algs.py", '"p2c": HeaderParameter("PBES2 Count", "int", True),', '"p2c": HeaderParameter("PBES2 Count", "str", True),')
+V("c15-epk-optional", "C15", "break", "R15.3", "epk not required on consumption",
+  "rfc7518/jwe_algs.py", '"epk": HeaderParameter("Ephemeral Public Key", "jwk", True),', '"epk": HeaderParameter("Ephemeral Public Key", "jwk"),')
+V("c15-is-list-str-members", "C15", "break", "R15.3", "is_list_str accepts non-str members",
+  "registry.py", "    if not all(isinstance(value, str) for value in values):\n        raise ValueError(\"must be a list[str]\")\n", "")
+V("c15-swallow-validation-error", "C15", "break", "R15.4", "validator failures swallowed",
+  "registry.py", "            except ValueError as error:\n                raise ValueError(f'\"{key}\" in header {error}')", "            except ValueError:\n                pass")
+V("c15-required-ignored", "C15", "break", "R15.4", "missing required parameters ignored",
+  "registry.py", "        if check_required and reg.required and key not in header:\n            raise ValueError(f'Required \"{key}\" is missing in header')\n", "")
+V("c15-crit-any", "C15", "break", "R15.4", "crit check stops at the first present name",
+  "registry.py", "            if k not in header:\n                raise ValueError(f'\"{k}\" is a critical header')", "            if k in header:\n                break\n            raise ValueError(f'\"{k}\" is a critical header')")
+V("c15-caller-registry-dropped", "C15", "break", "R15.5", "caller header registry not merged (JWS)",
+  "rfc7515/registry.py", "        if header_registry is not None:\n            self.header_registry.update(header_registry)\n", "")
+V("c15-benign-check-after-alg", "C15", "benign", "", "check_header moved after get_alg in verify_signature",
+  "rfc7515/json.py", "    headers = member.headers()\n    registry.check_header(headers)\n    alg = registry.get_alg(headers[\"alg\"])\n    key = find_key(member)\n    key.check_use(\"sig\")\n    alg.check_key_type(key)\n    if \"protected\" in signature:",
+  "    headers = member.headers()\n    alg = registry.get_alg(headers[\"alg\"])\n    registry.check_header(headers)\n    key = find_key(member)\n    key.check_use(\"sig\")\n    alg.check_key_type(key)\n    if \"protected\" in signature:")
+V("c15-benign-supported-loop", "C15", "benign", "", "check_supported_header as a loop",
+  "registry.py", "    allowed_keys = set(registry.keys())\n    unsupported_keys = set(header.keys()) - allowed_keys\n    if unsupported_keys:\n        raise ValueError(f'Unsupported {unsupported_keys} in header')",
+  "    for name in header:\n        if name not in registry:\n            raise ValueError(f'Unsupported {name} in header')")
